@@ -716,6 +716,89 @@ theorem runHist_events (c : Cfg) :
     · refine Or.inr ⟨(tx, pd) :: pre, tx', d, post, by rw [hl]; rfl, he, hid, ?_⟩
       simpa [runHist] using hok
 
+/-! ### REPROCESS = callback again -/
+
+theorem add_contains (cfg : C10.Cfg) (s : Store) (e : Event)
+    (h : contains (s.get e.doc.id).events e = true) : add cfg s e = .ok s := by
+  unfold add addDid
+  simp [h]
+
+/-- one REPROCESS message: the transaction goes through `callback` again; errors are logged, nothing else happens -/
+def reprocessOne (c : Cfg) (s : Store) (tx : Tx) (pd : Option NDoc) : Store :=
+  match callback c s tx pd with
+  | .ok s' => s'
+  | _ => s
+
+/-- REPROCESS of application/did+json: every such transaction of the DAG, in order -/
+def reprocess (c : Cfg) : Store → List (Tx × Option NDoc) → Store
+  | s, [] => s
+  | s, p :: ps => reprocess c (reprocessOne c s p.1 p.2) ps
+
+theorem callback_ok_add (c : Cfg) (s s' : Store) (tx : Tx) (pd : Option NDoc) (h : callback c s tx pd = .ok s') :
+    ∃ d, pd = some d ∧ add c.store s (eventOf tx d) = .ok s' := by
+  obtain ⟨_, d, hpd, _, hcase⟩ := callback_ok_inv c s s' tx pd h
+  refine ⟨d, hpd, ?_⟩
+  rcases hcase with ⟨k, _, hc⟩ | ⟨_, hup⟩
+  · exact (handleCreate_ok c s s' tx k d hc).2
+  · obtain ⟨_, _, _, _, _, _, _, hadd⟩ := handleUpdate_ok_inv c s s' tx d hup
+    exact hadd
+
+/-- a transaction the store already holds changes nothing when it is accepted again -/
+theorem reprocessOne_known (c : Cfg) (s : Store) (tx : Tx) (d : NDoc)
+    (h : contains (s.get d.id).events (eventOf tx d) = true) : reprocessOne c s tx (some d) = s := by
+  unfold reprocessOne
+  split
+  · rename_i s' hs'
+    obtain ⟨d', hd', hadd⟩ := callback_ok_add c s s' tx (some d) hs'
+    cases hd'
+    have h' : contains (s.get (eventOf tx d).doc.id).events (eventOf tx d) = true := h
+    rw [add_contains c.store s (eventOf tx d) h'] at hadd
+    cases hadd
+    rfl
+  · rfl
+
+theorem reprocessOne_events (c : Cfg) (s : Store) (tx : Tx) (pd : Option NDoc) (id : String) (e : Event)
+    (h : e ∈ ((reprocessOne c s tx pd).get id).events) :
+    e ∈ (s.get id).events ∨
+      ∃ d s', pd = some d ∧ callback c s tx (some d) = .ok s' ∧ e = eventOf tx d ∧ d.id = id := by
+  unfold reprocessOne at h
+  split at h
+  · rename_i s' hs'
+    obtain ⟨d, hpd, hadd⟩ := callback_ok_add c s s' tx pd hs'
+    subst hpd
+    obtain ⟨hother, hown⟩ := add_get c.store s s' (eventOf tx d) hadd
+    by_cases hid : id = (eventOf tx d).doc.id
+    · subst hid
+      rcases hown with ⟨_, rfl⟩ | hsome
+      · exact Or.inl h
+      · rcases addDid_events c.store _ _ _ hsome e h with rfl | hold
+        · exact Or.inr ⟨d, s', rfl, hs', rfl, rfl⟩
+        · exact Or.inl hold
+    · rw [hother id hid] at h
+      exact Or.inl h
+  · exact Or.inl h
+
+theorem reprocess_events (c : Cfg) :
+    ∀ (l : List (Tx × Option NDoc)) (s : Store) (id : String) (e : Event),
+      e ∈ ((reprocess c s l).get id).events →
+      e ∈ (s.get id).events ∨
+      ∃ pre tx d post s', l = pre ++ (tx, some d) :: post ∧ e = eventOf tx d ∧ d.id = id ∧
+        callback c (reprocess c s pre) tx (some d) = .ok s' := by
+  intro l
+  induction l with
+  | nil => intro s id e h; exact Or.inl h
+  | cons p ps ih =>
+    intro s id e h
+    obtain ⟨tx, pd⟩ := p
+    simp only [reprocess] at h
+    rcases ih _ id e h with h1 | ⟨pre, tx', d, post, s', hl, he, hid, hok⟩
+    · rcases reprocessOne_events c s tx pd id e h1 with h2 | ⟨d, s', hpd, hok, he, hid⟩
+      · exact Or.inl h2
+      · subst hpd
+        exact Or.inr ⟨[], tx, d, ps, s', rfl, he, hid, hok⟩
+    · refine Or.inr ⟨(tx, pd) :: pre, tx', d, post, s', by rw [hl]; rfl, he, hid, ?_⟩
+      simpa [reprocess] using hok
+
 /-! ### store-level resolution without AllowDeactivated -/
 
 theorem matchesMeta_not_deactivated (m : Meta) (rm : Option ResolveMeta) (ha : allowOf rm = false)
